@@ -146,6 +146,66 @@ def check_when(kind, n, rep, stats):
         stats['samples'].append(case)
 
 
+def check_repeated_inputs(nmax, rep, stats):
+  """The same AsyncResult object at two or more input positions (a shared, cached result handed in several times)."""
+  from scales.asynchronous import AsyncResult
+  for n in range(2, nmax + 1):
+    for k in range(1, n):                        # k distinct objects at n positions
+      for m in itertools.product(range(k), repeat=n):
+        if set(m) != set(range(k)) or list(m) != [x for x in m] or any(m.index(j) > m.index(j + 1) for j in range(k - 1)):
+          continue                               # canonical: objects numbered in order of first appearance
+        for kind in ('all', 'any'):
+          for outcome in itertools.product([True, False], repeat=k):
+            for pre, order in orders(k, outcome, AsyncResult):
+              objs = [AsyncResult() for _ in range(k)]
+              done = []
+              for i in pre:
+                complete(objs[i], i, outcome[i])
+                done.append(i)
+              vloop.run_ready()
+              comb = (AsyncResult.WhenAll if kind == 'all' else AsyncResult.WhenAny)([objs[j] for j in m])
+              vloop.run_ready()
+              first_ok = None
+              for s in [None] + list(order):
+                if s is not None:
+                  complete(objs[s], s, outcome[s])
+                  done.append(s)
+                  vloop.run_ready()
+                stats['steps'] += 1
+                got = snap(comb)
+                failed = [i for i in done if not outcome[i]]
+                oks = [i for i in done if outcome[i]]
+                if kind == 'all':
+                  if failed:
+                    good = got[0] == 'fail' and iserr(got[1]) and got[1].i in failed
+                    want = 'failed with one of %r' % failed
+                  elif len(done) == k:
+                    good = got == ('ok', [val(j) for j in m])
+                    want = 'values in input order %r' % ([val(j) for j in m],)
+                  else:
+                    good, want = got == ('pending',), 'pending'
+                else:
+                  if oks:
+                    if first_ok is None:
+                      first_ok = [i for i in pre if outcome[i]] or [oks[0]]
+                    good = got[0] == 'ok' and got[1] in [val(i) for i in first_ok]
+                    want = 'value of the first input to succeed %r' % first_ok
+                  elif len(done) == k:
+                    last = list(pre) if not order else [order[-1]]
+                    good = got[0] == 'fail' and iserr(got[1]) and got[1].i in last
+                    want = 'failed with the last failure %r' % last
+                  else:
+                    good, want = got == ('pending',), 'pending'
+                stats['cases_keys'].add(('dup', kind, m, outcome, pre, order, s, got[0]))
+                if not good:
+                  case = {'combinator': 'When' + kind.capitalize(), 'positions_to_objects': list(m), 'outcomes': ['ok' if o else 'fail' for o in outcome],
+                          'already_complete': list(pre), 'completion_order': list(order), 'after_step': s}
+                  rep.violation('C17.when%s' % kind, 'When%s with one result object at several positions: expected %s, got %r; case %r'
+                                % (kind.capitalize(), want, got, case), {'combinator': 'When' + kind.capitalize(), 'repeated': True}, {'case': case})
+                  return
+              stats['cases'] += 1
+
+
 def check_unwrap(max_depth, rep, stats, plain='plain'):
   """Chain ar0 -> ar1 -> ... -> ar_d; level f (or none) fails instead of yielding the next level."""
   from scales.asynchronous import AsyncResult
@@ -288,6 +348,8 @@ def main(tier, seed):
     for n in range(1, nmax + 1):
       check_when(kind, n, rep, stats)
       world.reset()
+  check_repeated_inputs(4 if tier == 'quick' else 5, rep, stats)
+  world.reset()
   VALMODE[0] = 'falsy'
   for kind in ('all', 'any'):
     for n in range(1, (4 if tier == 'quick' else 5) + 1):
@@ -320,7 +382,7 @@ def main(tier, seed):
   rep.part('combinators', engine='E', inputs_max=nmax, unwrap_depth_max=4 if tier == 'quick' else 5,
            cases=stats['cases'], comparison_steps=stats['steps'])
   rep.assumptions += ['zero-input WhenAll/WhenAny are outside the alphabet',
-                      'inputs are distinct AsyncResult objects',
+                      'inputs: distinct AsyncResult objects, and (up to 4-5 positions) every pattern of one object at several positions',
                       'values: distinct strings, and in a second pass the falsy values None, 0, \'\', (), False']
   return rep.finish(
     rule='full product of input count x success/failure assignment x already-complete subset x completion order '
